@@ -167,6 +167,8 @@ ResolveIn(nd, r) ==
      [] r.op = "mk_phantom" -> Fresh(Rec("Phantom", <<>>, 0, "", "", 0))
      [] r.op = "mk_expr_list" -> Fresh(Rec("Expr_list", <<>>, 0, "", "", 0))
      [] r.op = "mk_template" -> Fresh(Rec("Template", <<>>, 0, "", "", 0))
+     \* anything else (a crash or sanitizer report recorded as a terminal event) is not a call the library answers
+     [] OTHER -> Refuse
 
 Resolve(r) == ResolveIn(node, r)
 
